@@ -517,6 +517,66 @@ fn main() {
                 println!("{:?}: head={:?} parsed={:?}", a, o.chars().take(60).collect::<String>(), serde_yaml::from_str::<J>(body).map(|_| "ok").map_err(|e| e.to_string()));
             }
         }
+        "record-fn-table" => {
+            // C18: the table-driven functions (regex_replace, json_parse, url_decode) over lists of
+            // several strings, through a variable and directly; lines as record-eval (TraceEval)
+            let out = m.get("out").expect("--out");
+            let mut f = std::io::BufWriter::new(std::fs::File::create(out).unwrap());
+            let q = |parts: Vec<J>| json!({"r":"q","q":parts,"all":true});
+            let key = |k: &str| json!({"p":"key","k":val::cps(k)});
+            let var = |n: &str| json!({"p":"var","n":n});
+            let lists: Vec<Vec<&str>> = vec![
+                vec!["x y", "hello world"], vec!["a b", "c d", "e f"], vec!["one two"], vec![], vec!["no-match", "x y"], vec!["x y", "no-match", "p q"],
+                vec!["{\"k\":1}", "[1,2]", "7"], vec!["a%20b", "x%2Fy", "plain"], vec!["é ü", "日 本"],
+            ];
+            let calls: Vec<(&str, Vec<J>)> = vec![
+                ("regex_replace", vec![json!({"r":"val","v":val::vstr("^(\\w+) (\\w+)$")}), json!({"r":"val","v":val::vstr("${2} ${1}")})]),
+                ("regex_replace", vec![json!({"r":"val","v":val::vstr("^(\\w+) (\\w+)$")}), json!({"r":"val","v":val::vstr("${1}")})]),
+                ("json_parse", vec![]),
+                ("url_decode", vec![]),
+            ];
+            let mut i = 0usize;
+            for list in &lists {
+                for (fname, extra) in &calls {
+                    for form in 0..3 {
+                        let doc = val::vmap(vec![("a", val::vlist(list.iter().map(|s| val::vstr(s)).collect()))]);
+                        let arg = match form {
+                            0 => q(vec![key("a"), json!({"p":"idx"})]),
+                            1 => q(vec![key("a")]),
+                            _ => q(vec![var("src")]),
+                        };
+                        let mut a = vec![arg];
+                        a.extend(extra.iter().cloned());
+                        let mut lets = vec![];
+                        if form == 2 {
+                            lets.push(json!({"n":"src","v": q(vec![key("a"), json!({"p":"idx"})])}));
+                        }
+                        lets.push(json!({"n":"r","v":{"r":"fn","f":fname,"a":a}}));
+                        let gac = |qq: Vec<J>, op: &str, on: bool, all: bool, rhs: Vec<J>| json!({"c":"gac","q":qq,"all":all,"neg":false,"op":op,"on":on,"rhs":rhs});
+                        let first = list.first().map(|s| s.to_string()).unwrap_or_default();
+                        let rules = json!([
+                            {"n":"n","w":[],"lets":[{"n":"c","v":{"r":"fn","f":"count","a":[q(vec![var("r")])]}}],
+                             "b":[[gac(vec![var("c")], "eq", false, true, vec![json!({"r":"val","v":val::vint(list.len() as i64)})])]]},
+                            {"n":"some_first","w":[],"lets":[],"b":[[gac(vec![var("r")], "eq", false, false, vec![json!({"r":"val","v":val::vstr(&first)})])]]},
+                            {"n":"all_first","w":[],"lets":[],"b":[[gac(vec![var("r")], "eq", false, true, vec![json!({"r":"val","v":val::vstr(&first)})])]]},
+                            {"n":"strings","w":[],"lets":[],"b":[[gac(vec![var("r")], "is_string", false, true, vec![])]]},
+                            {"n":"y_x","w":[],"lets":[],"b":[[gac(vec![var("r")], "in", false, true, vec![json!({"r":"val","v":val::vlist(vec![val::vstr("y x"), val::vstr("world hello"), val::vstr("b a"), val::vstr("d c"), val::vstr("f e"), val::vstr("two one"), val::vstr("q p"), val::vstr("x"), val::vstr("a b"), val::vstr("x/y"), val::vstr("plain")])})])]]}
+                        ]);
+                        let prog = json!({"lets": lets, "prules": [], "rules": rules});
+                        let rules_text = render::render_file(&prog);
+                        let data = val::to_json_text(&doc);
+                        let mut obs = exec::observe(&rules_text, &data, false);
+                        if obs["kind"] == "ok" {
+                            let t = exec::status_tree(&obs["tree"]);
+                            obs["tree"] = t;
+                        }
+                        i += 1;
+                        let tab = gv::oracle::table(&prog, &doc);
+                        writeln!(f, "{}", json!({"i": i, "prog": prog, "doc": doc, "obs": obs, "tab": tab})).unwrap();
+                    }
+                }
+            }
+        }
         "fuzz-case" => {
             let seed: u64 = m.get("seed").and_then(|s| s.parse().ok()).unwrap_or(1);
             let i: usize = m.get("i").and_then(|s| s.parse().ok()).unwrap_or(0);
